@@ -283,11 +283,45 @@ Lemma serve_basic_refused d registered rt specs head realm attempt code result :
   attempt <> GoodCreds ->
   exists r, serve d registered rt specs head (Basic realm attempt code) result = Responded r /\
             o_www r = Some (challenge (effective_realm realm)) /\
-            o_error r = Some (match attempt with NoCreds => 401 | _ => code end) /\ o_producer r = None.
+            o_error r = Some (match attempt with BadCreds => code | _ => 401 end) /\ o_producer r = None.
 Proof.
   intros Ha. pose proof (effective_realm_nonempty realm) as Hne.
-  destruct attempt; [| |contradiction]; unfold serve, serve_respond, respond, basic_marker;
+  destruct attempt; [| |contradiction| |]; unfold serve, serve_respond, respond, basic_marker;
     (eexists; split; [reflexivity|]; simpl; destruct (effective_realm realm); [contradiction|auto]).
+Qed.
+
+(* the marker an authenticator leaves is the realm to challenge with: the effective realm after every failed
+   attempt (missing, refused, malformed, foreign-scheme credentials), nothing after accepted credentials *)
+Lemma basic_marker_challenge_realm realm a : basic_marker realm a = challenge_realm realm a.
+Proof. destruct a; reflexivity. Qed.
+
+Lemma failed_attempt_marker realm a :
+  a <> GoodCreds -> basic_marker realm a = effective_realm realm /\ basic_marker realm a <> [].
+Proof.
+  intros Ha. assert (E : basic_marker realm a = effective_realm realm) by (destruct a; [| |contradiction| |]; reflexivity).
+  split; [exact E|]. rewrite E. apply effective_realm_nonempty.
+Qed.
+
+Lemma accepted_attempt_no_marker realm : basic_marker realm GoodCreds = [].
+Proof. reflexivity. Qed.
+
+(* only refused and accepted credentials reach the authentication function; a request whose Authorization header
+   yields no credentials is treated exactly as one without the header *)
+Lemma serve_unusable_authorization_as_no_credentials d registered rt specs head realm attempt code result :
+  attempt_has_credentials attempt = false ->
+  serve d registered rt specs head (Basic realm attempt code) result =
+  serve d registered rt specs head (Basic realm NoCreds code) result.
+Proof. destruct attempt; intros H; try discriminate H; reflexivity. Qed.
+
+(* an error answered directly after a failed attempt carries the challenge naming the effective realm *)
+Lemma respond_after_failed_attempt d registered produces rt cached specs head realm a code :
+  a <> GoodCreds ->
+  exists r, respond d registered produces rt cached specs head (model_marker (Some (realm, a))) (DError code) = Responded r /\
+            o_www r = Some (challenge (effective_realm realm)) /\ o_error r = Some code /\ o_producer r = None.
+Proof.
+  intros Ha. cbn [model_marker]. destruct (failed_attempt_marker realm a Ha) as [E Hne]. rewrite E in *.
+  unfold respond. eexists. split; [reflexivity|]. cbn [o_www o_error o_producer].
+  destruct (effective_realm realm); [contradiction|auto].
 Qed.
 
 Lemma serve_basic_accepted_no_challenge d registered rt specs head realm code result r :
@@ -469,6 +503,19 @@ Proof.
     apply in_filter_mem in Hin'. destruct Hin' as [H1 H2]. now apply producers_for_hit.
 Qed.
 
+(* ... also after a basic authenticator examined the request: the marker it leaves makes Respond challenge
+   exactly the failed attempts (missing, refused, malformed and foreign-scheme credentials alike) *)
+Theorem direct_auth_meets_property d registered produces rt cached specs head auth dt tag :
+  Forall spec_ok specs -> cached_ok cached = true ->
+  direct_auth_prop d registered produces rt cached specs head auth dt tag
+              (obs_of (respond d registered produces rt cached specs head (model_marker auth) dt) tag) = true.
+Proof.
+  intros Hs Hc. unfold direct_auth_prop.
+  assert (E : model_marker auth = marker_after auth).
+  { destruct auth as [[realm a]|]; [apply basic_marker_challenge_realm | reflexivity]. }
+  rewrite E. now apply direct_meets_property.
+Qed.
+
 (* ---- the pipeline ---- *)
 Lemma scored_from_offer specs offers : forall k i o sc, In (i, o, sc) (scored_from k specs offers) -> In o offers.
 Proof.
@@ -565,10 +612,12 @@ Proof.
       now apply serve_respond_meets. }
   unfold serve_prop, serve. destruct auth as [|realm attempt code].
   - cbn [auth_passes andb]. destruct (acceptable specs rp) eqn:A; exact (V [] eq_refl).
-  - destruct attempt; cbn [auth_passes andb negb basic_marker].
+  - destruct attempt; cbn [auth_passes andb negb basic_marker attempt_fails refusal_code].
     + now apply serve_respond_meets.
     + now apply serve_respond_meets.
     + destruct (acceptable specs rp) eqn:A; exact (V [] eq_refl).
+    + now apply serve_respond_meets.
+    + now apply serve_respond_meets.
 Qed.
 
 (* the same for any Accept header: the parser's ranges always satisfy the hypothesis *)
